@@ -457,7 +457,7 @@ def near_traces(res, trace_a, trace_b, cfg_a, cfg_b, prop=None):
             raise
 
 
-def validate_trace(res, module, trace, label, prop=None, env_name="TRACE", cfg=None):
+def validate_trace(res, module, trace, label, prop=None, env_name="TRACE", cfg=None, case_extra=None):
     """Code -> spec direction: TLC consumes a trace recorded from the real code; rejection is a violation."""
     out = os.path.join(WORK, res.prop, f"{module}.{label}.out")
     n = sum(1 for _ in open(trace))
@@ -476,6 +476,7 @@ def validate_trace(res, module, trace, label, prop=None, env_name="TRACE", cfg=N
             if m:
                 try:
                     case = {"fam": "event", "module": module, "event": json.loads(json.loads(m.group(1))), "cfg": cfg or label}
+                    case.update(case_extra or {})
                 except ValueError:
                     pass
             ev = case.get("event", {})
@@ -486,7 +487,7 @@ def validate_trace(res, module, trace, label, prop=None, env_name="TRACE", cfg=N
             raise
 
 
-def record_and_validate(res, mode, cfgs, draws, module="Trace_Lanes", chunks=4, prop=None, expect_kinds=()):
+def record_and_validate(res, mode, cfgs, draws, module="Trace_Lanes", chunks=4, prop=None, expect_kinds=(), ops=None):
     """Code -> spec on arbitrary operands: `rec <mode>` executes the real library on random bit patterns in each
     build configuration and logs every call; TLC (module Trace_Lanes: IeeeW / IntLane with arbitrary-precision
     integers) consumes the log.  The log of each build is split into `chunks` files validated concurrently."""
@@ -497,7 +498,7 @@ def record_and_validate(res, mode, cfgs, draws, module="Trace_Lanes", chunks=4, 
     jobs = []
     for cfg in cfgs:
         tr = os.path.join(wd, f"rec.{mode}.{cfg}.ndjson")
-        p = run_bin(cfg, "rec", [mode, tr, str(res.seed), str(draws)])
+        p = run_bin(cfg, "rec", [mode, tr, str(res.seed), str(draws)], env_extra={"HX_OPS": ",".join(ops)} if ops else None)
         if p.returncode != 0:
             raise ToolError(f"rec {mode} failed in {cfg}: {p.stderr[-1500:]}")
         summ = json.load(open(tr + ".summary.json"))
@@ -521,7 +522,7 @@ def record_and_validate(res, mode, cfgs, draws, module="Trace_Lanes", chunks=4, 
     def one(job):
         cfg, k, f = job
         r = Result(res.prop, res.tier, res.seed)
-        validate_trace(r, module, f, f"{mode}.{cfg}.{k}", prop=prop, cfg=cfg)
+        validate_trace(r, module, f, f"{mode}.{cfg}.{k}", prop=prop, cfg=cfg, case_extra={"mode": mode, "seed": res.seed, "draws": draws, "ops": ops})
         return r
     with ThreadPoolExecutor(max_workers=8) as ex:
         sub = list(ex.map(one, jobs))
@@ -548,7 +549,20 @@ def replay_event(res, path):
     evf = os.path.join(wd, "replay.event.json")
     json.dump(case["event"], open(evf, "w"))
     tr = os.path.join(wd, f"replay.{cfg}.ndjson")
-    p = run_bin(cfg, "rec", ["replay", tr, evf])
+    if case["event"].get("k") == "poly":
+        # the recorder is deterministic in (mode, seed, draws): record again and keep the event with the same number
+        full = os.path.join(wd, f"replay.full.{cfg}.ndjson")
+        p = run_bin(cfg, "rec", [case["mode"], full, str(case["seed"]), str(case["draws"])], env_extra={"HX_OPS": ",".join(case["ops"])} if case.get("ops") else None)
+        want = case["event"]
+        line = next((l for l in open(full) if json.loads(l).get("i") == want["i"]), None)
+        if p.returncode != 0 or line is None:
+            raise ToolError(f"rec {case['mode']} did not reproduce event {want['i']}: {p.stderr[-800:]}")
+        got = json.loads(line)
+        if any(got.get(k) != want.get(k) for k in ("op", "ty", "sp", "a", "b", "m", "v", "t")):
+            raise ToolError(f"rec {case['mode']} produced different operands for event {want['i']}")
+        open(tr, "w").write(line)
+    else:
+        p = run_bin(cfg, "rec", ["replay", tr, evf])
     if p.returncode != 0 or not os.path.exists(tr) or os.path.getsize(tr) == 0:
         raise ToolError(f"rec replay produced no event: {p.stdout[-500:]} {p.stderr[-1500:]}")
     validate_trace(res, case["module"], tr, "replay", cfg=cfg)
